@@ -12,6 +12,8 @@ import json
 import pickle
 from collections import Counter
 
+import numpy as np
+
 from chmpy import Crystal
 
 from . import ops as O
@@ -59,13 +61,33 @@ def fresh(c):
     )
 
 
-def _clone(x):
-    # an independent deep copy; the pickle round trip is several times faster
-    # than copy.deepcopy on these objects and preserves every array bit for bit
-    try:
-        return pickle.loads(pickle.dumps(x, pickle.HIGHEST_PROTOCOL))
-    except Exception:  # noqa: BLE001
-        return copy.deepcopy(x)
+def _clone(x, _depth=0):
+    """Independent structural copy that does not go through pickle/deepcopy
+    hooks (a defect in __getstate__/__deepcopy__ of UnitCell, SpaceGroup or
+    AsymmetricUnit must not leak into the reference model): arrays and
+    containers are copied, instances of chmpy classes are rebuilt attribute by
+    attribute, immutable leaves are shared."""
+    if x is None or isinstance(x, (str, bytes, int, float, complex, bool, np.generic)):
+        return x
+    if isinstance(x, np.ndarray):
+        return x.copy()
+    if isinstance(x, list):
+        return [_clone(v, _depth + 1) for v in x]
+    if isinstance(x, tuple):
+        if hasattr(x, "_fields"):  # namedtuple of table constants
+            return x
+        return tuple(_clone(v, _depth + 1) for v in x)
+    if isinstance(x, dict):
+        return type(x)((k, _clone(v, _depth + 1)) for k, v in x.items()) if type(x) is dict else copy.deepcopy(x)
+    if isinstance(x, (set, frozenset)):
+        return type(x)(x)
+    cls = type(x)
+    if cls.__module__.startswith("chmpy") and hasattr(x, "__dict__") and _depth < 12:
+        new = cls.__new__(cls)
+        for k, v in x.__dict__.items():
+            new.__dict__[k] = _clone(v, _depth + 1)
+        return new
+    return copy.deepcopy(x)
 
 
 def outcome(fn, c, A, ctx):
